@@ -64,7 +64,7 @@ class Kind:
         return "%s[%s]" % (self.tag, a)
 
 
-INT, BOOL, REAL, STR, ANY = (Kind(t) for t in ("int", "bool", "real", "str", "any"))
+INT, BOOL, REAL, STR, ANY, NONE = (Kind(t) for t in ("int", "bool", "real", "str", "any", "none"))
 
 
 def OBJ(cls):
@@ -76,7 +76,8 @@ def TUP(*ks):
 
 
 def OPT(k):
-    return k if k.tag == "opt" else Kind("opt", (k,))
+    """Optional[k]; Optional[any] is any (None is a Val), Optional[None] is None"""
+    return k if k.tag in ("opt", "any", "none") else Kind("opt", (k,))
 
 
 def SET(k):
@@ -94,7 +95,7 @@ def LIST(e):
 def parse_kind(s):
     """'dict[str,set[str]]', 'dict[str,set[str];default]', 'obj:HyperEdge', 'opt[str]', 'tuple[any,any]' ..."""
     s = s.strip()
-    if s in ("int", "bool", "real", "str", "any"):
+    if s in ("int", "bool", "real", "str", "any", "none"):
         return Kind(s)
     if s == "float":
         return REAL
@@ -232,6 +233,8 @@ def sort_tree(k):
         return R
     if t == "any":
         return Val
+    if t == "none":
+        return ()
     if t == "tuple":
         return tuple(sort_tree(a) for a in k.args)
     if t == "opt":
@@ -279,6 +282,8 @@ def default_tree(k):
         return z3.RealVal(0)
     if t == "any":
         return Val.VNone
+    if t == "none":
+        return ()
     if t == "tuple":
         return tuple(default_tree(a) for a in k.args)
     if t == "opt":
@@ -396,6 +401,8 @@ def box(k, tree):
     t = k.tag
     if t == "any":
         return tree
+    if t == "none":
+        return Val.VNone
     if t == "int":
         return Val.VInt(tree)
     if t == "bool":
@@ -418,6 +425,8 @@ def unbox(k, v):
     t = k.tag
     if t == "any":
         return v
+    if t == "none":
+        return ()
     if t == "int":
         return int_of(v)
     if t == "bool":
@@ -439,6 +448,8 @@ def has_kind(k, v):
     t = k.tag
     if t == "any":
         return z3.BoolVal(True)
+    if t == "none":
+        return v == Val.VNone
     if t == "int":
         return z3.Or(Val.is_VInt(v), Val.is_VBool(v))
     if t == "bool":
